@@ -15,7 +15,7 @@ IsEvent(e) == l <= Len(Trace) /\ Ev.ev = e /\ l' = l + 1
 TInit == Init /\ l = 1
 
 TReset == /\ IsEvent("Reset")
-          /\ flag' = 1 /\ auth' = FALSE /\ mtx' = Free /\ timer' = FALSE /\ pwd' = 0
+          /\ flag' = 1 /\ auth' = FALSE /\ mtx' = Free /\ timer' = FALSE /\ oblig' = FALSE /\ passed' = FALSE /\ pwd' = 0
           /\ pc' = [c \in Callers |-> "idle"]
           /\ rq' = [c \in Callers |-> NoReq]
           /\ tmp' = [c \in Callers |-> 1]
